@@ -1114,6 +1114,11 @@ func rw(w bool) string {
 // datagram is seen as over-long instead of being truncated to a well-formed length.
 func RuleReadBuffers(r *Report, p *Program) {
 	r.Rule("RB", "every receive buffer handed to a socket read is larger than the 64-byte message, so over-long datagrams stay recognisable", 5)
+	// one obligation per socket function: it reaches a socket read (whose buffer is checked below, wherever it
+	// lives: in the function, in a goroutine it starts or in a helper shared with its siblings)
+	for _, sf := range SocketFns(p) {
+		r.Check(readsSocket(sf.Fn), "RB", sf.Name+":reads", p.Pos(sf.Fn.Pos()), "reaches a checked socket read", "the socket function never reads from its socket")
+	}
 	for _, fn := range p.AllFuncs {
 		pk := fnPkg(fn)
 		if pk != p.SSAPkg("uhppote") {
